@@ -13,14 +13,14 @@ FUNCTIONS_ENCODED = ["Node._receive_message", "Node._receive_app_request/_receiv
                      "Application.send_answer", "PeerConnection.close", "PeerStats/SecondSlotCounter (real, concrete clock)"]
 ASSUMPTIONS = ["inductive step instead of N = 1000: after a warm-up in which every kind of transaction/connection attempt has happened once, two further ones of symbolic kinds leave every container size and the live-thread count unchanged",
                "containers with a maxlen (documented fixed-size windows) are checked against their bound instead", "Application.send_request's blocking wait is not part of this check (C10): outbound requests are sent with route_request/send_message"]
-BOUNDS = {"quick": "after the warm-up: every pair of the 22 operations (11 transaction kinds, 11 connection-attempt outcomes); 1 peer", "thorough": "every triple"}
+BOUNDS = {"quick": "after the warm-up: every pair of the 23 operations (12 transaction kinds, 11 connection-attempt outcomes); 1 peer", "thorough": "every triple"}
 OUTSIDE = ["N = 1000 runs (replaced by the inductive step)", "2 peers"]
 PEER = B.PEER_HOSTS[0]
 
 OPS = ["in_req_retransmit_rejected", "conn_while_stopping", "in_req_answered", "in_req_rejected_app", "in_req_rejected_avp", "in_req_rejected_realm", "out_req_answered", "dwr_in", "dwr_out",
        "conn_inbound_then_gone", "conn_unknown_peer", "conn_cer_nocommon", "conn_dial_refused", "conn_dial_async_fail", "conn_dial_cea_rejected",
        "conn_dial_ok_then_closed", "conn_second_of_connected_peer", "conn_silent_until_timeout",
-       "in_req_then_conn_gone", "out_req_then_conn_gone", "conn_unknown_peer_fresh_name", "in_req_dpr_answer_refused"]
+       "in_req_then_conn_gone", "out_req_then_conn_gone", "conn_unknown_peer_fresh_name", "in_req_dpr_answer_refused", "stranger_bad_cer_conn_stays_open"]
 
 
 def measure(h, skip):
@@ -79,6 +79,16 @@ class Driver(H.Hist):
             self.ev_accept()
             self.ev_cer(PEER, [4])
             c = self.p.connection
+        return c
+
+    def stranger_conn(self):
+        """exactly one connection of a not yet identified peer is kept open (pre-CE), so that both measurements see the same
+        number of connections"""
+        c = getattr(self, "_stranger", None)
+        if c is None or c.ident not in self.n.connections:
+            self.ev_accept()
+            c = self.newest(lambda x: x.state == B.PEER_CONNECTED and not x.host_identity)
+            self._stranger = c
         return c
 
     def nid(self):
@@ -143,6 +153,13 @@ class Driver(H.Hist):
                 except Exception:
                     pass
                 self.settle()
+        elif name == "stranger_bad_cer_conn_stays_open":
+            # a CER without its required Product-Name on the stranger's open connection: answered 5005, connection stays
+            sc = self.stranger_conn()
+            m = B.cer("stranger%d.local.realm" % i, hbh=i, e2e=i)
+            m.product_name = None
+            self._push(sc, m.as_bytes())
+            B.drain(sc)
         elif name == "in_req_dpr_answer_refused":
             # the requester asks to disconnect while the application still owes the answer: the answer is refused (NotRoutable),
             # then the connection ends
@@ -223,10 +240,12 @@ def growth(ops: List[int]) -> bool:
             for k in OPS:                 # warm-up: everything has happened once
                 d.op(k)
             d.main_conn()
+            d.stranger_conn()
             m0 = measure(d, skip)
             for k in names:
                 d.op(k)
             d.main_conn()
+            d.stranger_conn()
             m1 = measure(d, skip)
     except Exception as e:
         return hx.fail((ops,), "raised %s: %s" % (type(e).__name__, str(e)[:100]))
